@@ -236,6 +236,8 @@ VARIANTS = [
     V("datetime edges viewed as integers, labels handed over as they are", ("C07",), "R-CLOSEDSIDE", "core.py", '                idx = np.digitize(flat.view(np.int64), bins=bins.view(np.int64), right=right)', '                idx = np.digitize(flat, bins=bins.view(np.int64), right=right)', must_mention="representation"),
     V("first/last predicate recognises names only", ("C11", "C19"), "R-PREDFAMILY", "core.py", 'def _is_first_last_reduction(func: T_Agg) -> bool:\n    if isinstance(func, Aggregation):\n        func = func.name\n', 'def _is_first_last_reduction(func: T_Agg) -> bool:\n', must_mention="spelling"),
     V("finalizer takes the last intermediate for the counts unconditionally", ("C05", "C03"), "R-COUNTER", "core.py", '    if min_count > 0:\n        counts = squeezed["intermediates"][-1]\n        squeezed["intermediates"] = squeezed["intermediates"][:-1]\n', '    counts = squeezed["intermediates"][-1]\n    if min_count > 0:\n        squeezed["intermediates"] = squeezed["intermediates"][:-1]\n', must_mention="last intermediate"),
+    V("complex +inf sentinel built by arithmetic", ("C04", "C20"), "R-INFRESOLVE", "xrdtypes.py", '        return complex(np.inf, np.inf)', '        return np.inf + 1j * np.inf', must_mention="NaN"),
+    V("twin: complex +inf sentinel from two float infinities", ("C04", "C20"), "", "xrdtypes.py", '        return complex(np.inf, np.inf)', '        return complex(float("inf"), float("inf"))', expect="silent"),
     V("dtype promotion memoised with an untyped key", ("C14",), "R-MEMO", "xrdtypes.py", '        dtype = np.result_type(dtype, fill_value)\n    return dtype\n',
       '        dtype = _promote_for_fill_value(dtype, fill_value)\n    return dtype\n\n\n@functools.lru_cache\ndef _promote_for_fill_value(dtype: np.dtype, fill_value) -> np.dtype:\n    return np.result_type(dtype, fill_value)\n', must_mention="typed"),
     V("twin: dtype promotion memoised with typed=True", ("C14",), "", "xrdtypes.py", '        dtype = np.result_type(dtype, fill_value)\n    return dtype\n',
